@@ -80,7 +80,7 @@ func (s *schedReader) Read(p []byte) (int, error) {
 	return n, nil
 }
 
-var csvCellAlphabet = []string{"", "a", "b", "ab", "1", "-2", "0", "1.5", "NaN", "true", "false", "x y", " lead", "trail ", "é", "q\"t", "\"", "\"\"", "a,b", ",", "l\nf", "\n", "a;b", "a\tb", "a|b", "zz", "A", "\xff", "1e3", "+Inf", "7", "T", "007", "010", "-0020", "0x1f", "0b11", "0o17", "1_000", "+5", " 5", "5 ", ".5", "5.", "Inf", "-inf", "nan", "TRUE", "t", "9223372036854775807", "9223372036854775808", "1e400"}
+var csvCellAlphabet = []string{"", "a", "b", "ab", "1", "-2", "0", "1.5", "NaN", "true", "false", "x y", " lead", "trail ", "é", "q\"t", "\"", "\"\"", "a,b", ",", "l\nf", "\n", "a;b", "a\tb", "a|b", "zz", "A", "\xff", "1e3", "+Inf", "7", "T", "007", "010", "-0020", "0x1f", "0b11", "0o17", "1_000", "+5", " 5", "5 ", ".5", "5.", "Inf", "-inf", "nan", "TRUE", "t", "9223372036854775807", "9223372036854775808", "1e400", "x\r\ny", "\r\n", "a\r\n"}
 
 type csvDoc struct {
 	delim  byte
@@ -90,13 +90,23 @@ type csvDoc struct {
 	trailE bool // the document ends with an unquoted empty last field and no line break
 }
 
-func genCsvDoc(r *tx.Rng, size int, numeric bool) csvDoc {
+func genCsvDoc(r *tx.Rng, size int, numeric bool) csvDoc { return genCsvDocH(r, size, numeric, false) }
+
+// dupHdr: the first row (the header for ReadCSV) repeats names and contains the candidates RenameDuplicateColumns
+// would generate (c0, c1, c00), to the left and to the right of the duplicates
+func genCsvDocH(r *tx.Rng, size int, numeric bool, dupHdr bool) csvDoc {
 	d := csvDoc{delim: ','}
 	if r.P(1, 4) {
 		d.delim = []byte{';', '\t', '|', ' '}[r.Intn(4)]
 	}
 	nrows := r.PickInt([]int{0, 1, 2, 3, 3, 4, 6})
 	ncols := 1 + r.Intn(4)
+	if dupHdr {
+		ncols = 2 + r.Intn(4)
+		if nrows == 0 {
+			nrows = 2
+		}
+	}
 	if size >= 2 && r.P(1, 6) {
 		nrows = 30 + r.Intn(40)
 	}
@@ -137,6 +147,9 @@ func genCsvDoc(r *tx.Rng, size int, numeric bool) csvDoc {
 					}
 					cell = string(b)
 				}
+			}
+			if dupHdr && i == 0 {
+				cell = []string{"c", "c", "c", "c0", "c1", "c00", "d", ""}[r.Intn(8)]
 			}
 			row[c] = cell
 		}
@@ -317,7 +330,27 @@ func csvRawSection(r *tx.Rng, w *tx.W, size int, opt map[string]string) {
 			calls = 2
 		}
 		fwd := r.Bool()
+		if len(sched) > 0 && len(sched)+3 < calls {
+			calls = len(sched) + 3 // once the schedule is used up the rest is delivered by one read
+		}
+		// every call number up to 160; beyond that the first 64, the last 32 and 64 drawn ones (the transcript repeats
+		// the document on every line)
+		pick := map[int]bool{}
+		if calls > 160 {
+			for k := 0; k < 64; k++ {
+				pick[k] = true
+			}
+			for k := calls - 32; k < calls; k++ {
+				pick[k] = true
+			}
+			for i := 0; i < 64; i++ {
+				pick[r.Intn(calls)] = true
+			}
+		}
 		for k := 0; k < calls; k++ {
+			if calls > 160 && !pick[k] {
+				continue
+			}
 			runCsvRaw(w, d, sched, false, k, fwd)
 		}
 	}
@@ -380,7 +413,8 @@ func genBigCsvDoc(r *tx.Rng) csvDoc {
 }
 
 func csvReadSection(r *tx.Rng, w *tx.W, size int, opt map[string]string) {
-	d := genCsvDoc(r, size, !r.P(1, 4))
+	dupHdr := r.P(1, 6)
+	d := genCsvDocH(r, size, !r.P(1, 4), dupHdr)
 	big := opt["faults"] == "" && r.P(1, 60)
 	if big {
 		d = genBigCsvDoc(r)
@@ -405,6 +439,9 @@ func csvReadSection(r *tx.Rng, w *tx.W, size int, opt map[string]string) {
 	emptyNull := r.Bool()
 	ignoreEmpty := r.Bool()
 	rename := r.P(1, 3)
+	if dupHdr && r.P(2, 3) {
+		rename = true
+	}
 	alias := ""
 	if r.P(1, 3) {
 		alias = "col"
@@ -416,7 +453,7 @@ func csvReadSection(r *tx.Rng, w *tx.W, size int, opt map[string]string) {
 	var headers []string
 	if r.P(1, 4) && ncols > 0 && !big {
 		for c := 0; c < ncols; c++ {
-			headers = append(headers, []string{"h0", "h1", "h2", "h3", "h1"}[r.Intn(5)])
+			headers = append(headers, []string{"h0", "h1", "h2", "h3", "h1", "h10", "h1"}[r.Intn(7)])
 		}
 		if !rename {
 			headers = headers[:0]
